@@ -15,7 +15,7 @@ for sid in sorted(os.listdir(os.path.join(HERE, "seeded"))):
         continue
     meta = json.load(open(os.path.join(d, "meta.json")))
     prop = meta["property"]
-    if len(sys.argv) > 1 and sys.argv[1] not in sid:
+    if len(sys.argv) > 1 and not (any(sid.startswith(f[1:]) for f in sys.argv[1].split(",") if f.startswith("^")) or any(f in sid for f in sys.argv[1].split(",") if not f.startswith("^"))):
         continue
     caught = {}
     if meta.get("neutralised_by"):
